@@ -151,8 +151,10 @@ def rank_body(cfg, history, observe=None):
                 for m in model.modules():
                     m._forward_pre_hooks.clear(); m._backward_hooks.clear()
                 pc = build_precond(model, cfg, dp_group, mp_group)
+                from harness import simdist
+                mark = sum(1 for x in simdist._WORLD.log if x[0] == rank)      # collectives of the constructor end here
                 pc.load_state_dict(copy.deepcopy(ckpts[e[1]]), compute_inverses=bool(e[2]))
-                obs.append({'ev': ev, 'kind': 'load'})
+                obs.append({'ev': ev, 'kind': 'load', 'log_mark': mark})
             if observe is not None:
                 obs[-1]['extra'] = observe(rank, ev, e, model, pc)
         return obs
